@@ -38,6 +38,12 @@ CNS = Fn(A, "create_next_state", home="C02", implicit_props=("C09", "C02", "C05"
             } else {
                 lemma_phase1_enter(c0, vpre.coins, next_state.coins@.coins, txx, j, rel, arbitrary());
             }
+            if enumerable(c0) { if tx.kind == TxKind::Faucet && !is_grandfathered(h) {
+                    let m = choose|m: CoinDataHeight| is_marker_cdh(m) && #[trigger] view_insert(vpre, spec_marker(h), m, spec_tip906(st0)) == next_state.coins@;
+                    lemma_supply_insert_le(vpre.coins, spec_marker(h), m, Denom::Mel);
+                    assert forall|d: Denom| coins_supply(next_state.coins@.coins, d) <= coins_supply(c0, d) + #[trigger] created_tot(txx, j, rel, d) + created_val(txx[j], rel, 0, d) by { lemma_supply_insert_le(vpre.coins, spec_marker(h), m, d); lemma_created_val_next(txx[j], rel, 0, d); }
+                } else { assert(next_state.coins@.coins == vpre.coins);
+                    assert forall|d: Denom| coins_supply(next_state.coins@.coins, d) <= coins_supply(c0, d) + #[trigger] created_tot(txx, j, rel, d) + created_val(txx[j], rel, 0, d) by { lemma_created_val_next(txx[j], rel, 0, d); } } }
         }"""),
         Inject(("before", "for tx in transactions", 1), """let ghost c1 = next_state.coins@.coins;
             proof { assert(txx.take(0) =~= Seq::<Transaction>::empty()); assert forall|x: CoinID| true implies !#[trigger] spent_by(txx, 0, x) by {}
@@ -48,31 +54,37 @@ CNS = Fn(A, "create_next_state", home="C02", implicit_props=("C09", "C02", "C05"
     ],
     loops=[
         Loop(0, binder="it", body_entry="let ghost vpre = next_state.coins@; proof { assert(*tx == txx[it.index@ as int]); }",
-             body_exit="proof { lemma_phase1_next_tx(c0, next_state.coins@.coins, txx, it.index@ as int, rel); }",
+             body_exit="proof { lemma_phase1_next_tx(c0, next_state.coins@.coins, txx, it.index@ as int, rel); assert forall|d: Denom| true implies #[trigger] created_tot(txx, it.index@ as int + 1, rel, d) == created_tot(txx, it.index@ as int, rel, d) + created_val(txx[it.index@ as int], rel, txx[it.index@ as int].outputs@.len() as int, d) by { lemma_created_tot_next(txx, it.index@ as int, rel, d); } }",
              invariants=[
             C("common1", COMMON_INV, "C02", "C20"),
             C("p1", "phase1(c0, next_state.coins@.coins, txx, it.index@ as int, false, rel, 0)", "C02", "C01"),
             C("fee1", FEE0, "C05", "C01", "C03"),
             C("seq1", "refs_of(it.seq(), txx)", "C02"),
             C("fauc1", FAUC % "it.index@", "C19"),
+            C("sup1", "(enumerable(c0) ==> enumerable(next_state.coins@.coins) && forall|d: Denom| coins_supply(next_state.coins@.coins, d) <= coins_supply(c0, d) + #[trigger] created_tot(txx, it.index@ as int, rel, d))", "C01"),
         ]),
         Loop(1, body_entry="let ghost cb = next_state.coins@.coins;",
              body_exit="""proof { let j = it.index@ as int; assert(coinid == cid(txx[j], i as int));
                  if rel.contains_key(coinid) { assert(next_state.coins@.coins == cb.insert(coinid, rel[coinid])); lemma_origin_insert(cb, txx[j], i as int, rel[coinid]); }
                  else { assert(next_state.coins@.coins == cb); }
-                 lemma_phase1_step(c0, cb, next_state.coins@.coins, txx, j, rel, i as int); }""",
+                 lemma_phase1_step(c0, cb, next_state.coins@.coins, txx, j, rel, i as int);
+                 if enumerable(c0) { if rel.contains_key(coinid) { lemma_supply_insert_le(cb, coinid, rel[coinid], Denom::Mel); }
+                     assert forall|d: Denom| coins_supply(next_state.coins@.coins, d) <= coins_supply(c0, d) + #[trigger] created_tot(txx, j, rel, d) + created_val(txx[j], rel, i as int + 1, d) by {
+                     lemma_created_val_next(txx[j], rel, i as int, d); if rel.contains_key(coinid) { lemma_supply_insert_le(cb, coinid, rel[coinid], d); } } } }""",
              invariants=[
             C("common1i", COMMON_INV, "C02", "C20"),
             C("p1i", "phase1(c0, next_state.coins@.coins, txx, it.index@ as int, true, rel, i as int)", "C02", "C01"),
             C("fee1i", FEE0, "C05", "C01", "C03"),
             C("ctx1i", "refs_of(it.seq(), txx) && 0 <= it.index@ < txx.len() && *tx == txx[it.index@ as int] && txhash == spec_txhash(*tx)", "C02"),
             C("fauc1i", FAUC % "it.index@ + 1", "C19"),
+            C("sup1i", "(enumerable(c0) ==> enumerable(next_state.coins@.coins) && forall|d: Denom| coins_supply(next_state.coins@.coins, d) <= coins_supply(c0, d) + #[trigger] created_tot(txx, it.index@ as int, rel, d) + created_val(txx[it.index@ as int], rel, i as int, d))", "C01"),
         ]),
         Loop(2, binder="it", body_entry="proof { assert(*tx == txx[it.index@ as int]); }",
              body_exit="""proof { let j = it.index@ as int; lemma_phase2_next_tx(c1, next_state.coins@.coins, txx, j);
                  lemma_fsum_take_next(txx, min_fee_of(st0.fee_multiplier), j); lemma_fsum_take_next(txx, tip_of(st0.fee_multiplier), j);
                  lemma_fsum_take_next(txx, fee_of(), j); lemma_fsum_take_le(txx, fee_of(), j + 1);
-                 assert forall|h: TxHash| true implies (#[trigger] in_batch(txx, j + 1, h) <==> (in_batch(txx, j, h) || h == spec_txhash(txx[j]))) by { lemma_in_batch_next(txx, j, h); } }""",
+                 assert forall|h: TxHash| true implies (#[trigger] in_batch(txx, j + 1, h) <==> (in_batch(txx, j, h) || h == spec_txhash(txx[j]))) by { lemma_in_batch_next(txx, j, h); }
+                 assert forall|d: Denom| true implies #[trigger] spent_tot(txx, j + 1, rel, d) == spent_tot(txx, j, rel, d) + spent_val(txx[j], rel, txx[j].inputs@.len() as int, d) by { lemma_spent_tot_next(txx, j, rel, d); } }""",
              invariants=[
             C("common2", COMMON_INV, "C02", "C20"),
             C("p2", "phase1(c0, c1, txx, txx.len() as int, false, rel, 0) && phase2(c1, next_state.coins@.coins, txx, it.index@ as int, 0)", "C02", "C01"),
@@ -80,9 +92,13 @@ CNS = Fn(A, "create_next_state", home="C02", implicit_props=("C09", "C02", "C05"
             C("seq2", "refs_of(it.seq(), txx)", "C02"),
             C("fauc2", FAUC % "txx.len()", "C19"),
             C("txs2", TXS % "it.index@ as int", "C02"),
+            C("sup2", "(supply_hyp(c0, txx, rel) ==> enumerable(next_state.coins@.coins) && forall|d: Denom| coins_supply(next_state.coins@.coins, d) == coins_supply(c1, d) - #[trigger] spent_tot(txx, it.index@ as int, rel, d))", "C01"),
         ]),
         Loop(3, binder="it2", body_entry="let ghost cb = next_state.coins@.coins; proof { assert(*coinid == txx[it.index@ as int].inputs@[it2.index@ as int]); }",
-             body_exit="""proof { lemma_origin_remove(cb, *coinid); lemma_phase2_step(c1, cb, txx, it.index@ as int, it2.index@ as int); }""",
+             body_exit="""proof { lemma_origin_remove(cb, *coinid); lemma_phase2_step(c1, cb, txx, it.index@ as int, it2.index@ as int);
+                 if supply_hyp(c0, txx, rel) { let j = it.index@ as int; let n = it2.index@ as int; lemma_input_live(c0, c1, cb, txx, rel, j, n);
+                     assert(next_state.coins@.coins == cb.remove(*coinid)); lemma_isum_remove(cb, *coinid, val_of(Denom::Mel));
+                     assert forall|d: Denom| coins_supply(next_state.coins@.coins, d) == coins_supply(c1, d) - #[trigger] spent_tot(txx, j, rel, d) - spent_val(txx[j], rel, n + 1, d) by { lemma_isum_remove(cb, *coinid, val_of(d)); lemma_spent_val_next(txx[j], rel, n, d); } } }""",
              invariants=[
             C("common2i", COMMON_INV, "C02", "C20"),
             C("p2i", "phase1(c0, c1, txx, txx.len() as int, false, rel, 0) && phase2(c1, next_state.coins@.coins, txx, it.index@ as int, it2.index@ as int)", "C02", "C01"),
@@ -90,6 +106,7 @@ CNS = Fn(A, "create_next_state", home="C02", implicit_props=("C09", "C02", "C05"
             C("ctx2i", "refs_of(it.seq(), txx) && 0 <= it.index@ < txx.len() && *tx == txx[it.index@ as int] && refs_of(it2.seq(), tx.inputs@)", "C02"),
             C("fauc2i", FAUC % "txx.len()", "C19"),
             C("txs2i", TXS % "it.index@ as int", "C02"),
+            C("sup2i", "(supply_hyp(c0, txx, rel) ==> enumerable(next_state.coins@.coins) && forall|d: Denom| coins_supply(next_state.coins@.coins, d) == coins_supply(c1, d) - #[trigger] spent_tot(txx, it.index@ as int, rel, d) - spent_val(txx[it.index@ as int], rel, it2.index@ as int, d))", "C01"),
         ]),
     ],
 )
@@ -97,7 +114,7 @@ CNS = Fn(A, "create_next_state", home="C02", implicit_props=("C09", "C02", "C05"
 UNIT = Unit(
     name="apply", lemma_obs=['lemma_phases_to_batch', 'lemma_batch_perm', 'lemma_fees_perm'], uses="group_core_axioms, axiom_marker_not_output, axiom_marker_inj",
     prelude=["core.rs", "raw.rs", "iter.rs", "crypto.rs", "state_abs.rs"],
-    lemmas=["sums.rs", "iterlem.rs", "coinsview.rs", "tips.rs", "apply.rs"],
+    lemmas=["sums.rs", "iterlem.rs", "coinsview.rs", "supply.rs", "tips.rs", "apply.rs", "supply_batch.rs"],
     items=[
         Fn(DEP_TX, "base_fee", impl="Transaction", mode="assume", **tx_base_fee()),
         TypeItem(S, "struct", "UnsealedState"),
